@@ -130,6 +130,9 @@ fiber_t* fiber_create_from_thread() {
 
 #include <stdio.h>
 
+// left in the joiner's scratch field by fiber_detach()
+#define FIBER_JOIN_TARGET_DETACHED ((void*)(intptr_t)-1)
+
 int fiber_join(fiber_t* f, void** result) {
   assert(f);
   if (result) {
@@ -145,7 +148,13 @@ int fiber_join(fiber_t* f, void** result) {
     // need to wait till the fiber finishes
     fiber_manager_t* const manager = fiber_manager_get();
     fiber_t* const current_fiber = manager->current_fiber;
+    current_fiber->scratch = NULL;
     fiber_manager_set_and_wait(manager, (void**)&f->join_info, current_fiber);
+    if (current_fiber->scratch == FIBER_JOIN_TARGET_DETACHED) {
+      // woken by fiber_detach(), not by the fiber finishing: there is no result
+      current_fiber->scratch = NULL;
+      return FIBER_ERROR;
+    }
     if (result) {
       *result = current_fiber->result;
     }
@@ -217,6 +226,11 @@ int fiber_detach(fiber_t* f) {
     // convenience, pthreads specifies undefined behaviour in that case)
     fiber_t* const to_schedule = fiber_manager_clear_or_wait(
         fiber_manager_get(), (_Atomic(void*)*)&f->join_info);
+    if (old_state == FIBER_DETACH_WAIT_TO_JOIN) {
+      // to_schedule is a fiber blocked in fiber_join(f): f has not finished,
+      // so that join must fail rather than report success without a result
+      to_schedule->scratch = FIBER_JOIN_TARGET_DETACHED;
+    }
     to_schedule->state = FIBER_STATE_READY;
     fiber_manager_schedule(fiber_manager_get(), to_schedule);
   } else if (old_state == FIBER_DETACH_DETACHED) {
